@@ -29,7 +29,7 @@ fn meta(ctx: &Ctx) -> Meta {
     Meta {
         level: "exploration",
         rule: format!(
-            "bounded-exhaustive destinations: every string of up to {} tokens over {:?} (release; one token fewer in verifdbg) is given to with_file + build: no panic, and a destination that does not start with '/' or './' or has no file name (component list empty or ending in '..') must be an error; capability strings (all strings up to 4 tokens of C19's alphabet) through FileOptions::caps; every compression type with levels 0..=25, 100, 2^31, u32::MAX (zstd: i32::MIN, -200..=30, i32::MAX) then build() with a small file - if Ok the payload must decompress independently and contain the file; metadata setters with NUL / newline / 64 KiB / odd strings, extreme epochs and modes, missing and directory sources. Release and verifdbg. Building with each compression type is repeated in builds of the library with three other cargo feature sets (none, gzip only, default): an error is fine, a panic is not. distinct_nontrivial = distinct argument tuples executed",
+            "bounded-exhaustive destinations: every string of up to {} tokens over {:?} (release; one token fewer in verifdbg) is given to with_file + build: no panic, and a destination that does not start with '/' or './' or has no file name (component list empty or ending in '..') must be an error; capability strings (all strings up to 5 tokens of C19's alphabet; 3 in verifdbg) through FileOptions::caps + build: no panic, InvalidCapabilities as the error kind, and text that C19's grammar model rejects must not be accepted; every compression type with levels 0..=25, 100, 2^31, u32::MAX (zstd: i32::MIN, -200..=30, i32::MAX) then build() with a small file - if Ok the payload must decompress independently and contain the file; metadata setters with NUL / newline / 64 KiB / odd strings, extreme epochs and modes, missing and directory sources. Release and verifdbg. Building with each compression type is repeated in builds of the library with three other cargo feature sets (none, gzip only, default): an error is fine, a panic is not. distinct_nontrivial = distinct argument tuples executed",
             max_tokens(ctx),
             TOKENS
         ),
@@ -246,7 +246,7 @@ fn run(ctx: &Ctx, rep: &Report) {
     }
     // 2. capability strings through FileOptions::caps
     let ctoks = ["cap_chown", "CAP_SYSLOG", "all", "cap_bogus", ",", "=", "+", "-", "e", "i", "p", "x", " "];
-    let clen = if ctx.is_dbg() { 3 } else { 4 };
+    let clen = if ctx.is_dbg() { 3 } else { 5 };
     for len in 0..=clen {
         let total = 13u64.pow(len);
         par_for(ctx.threads, total.div_ceil(1024), 1, |c| {
@@ -264,7 +264,12 @@ fn run(ctx: &Ctx, rep: &Report) {
                             rep.violation("caps:wrong-error-kind", format!("capability text {s:?} is rejected with {e:?} instead of InvalidCapabilities"), json!({"kind": "caps", "text": s}), s.len() as u64);
                         }
                     }
-                    Ok(Ok(_)) => {}
+                    Ok(Ok(_)) => {
+                        // text outside the grammar (unknown names, malformed clauses) must have been an error
+                        if let (crate::model::caps::Verdict::Reject, why) = crate::model::caps::judge_reason(&s) {
+                            rep.violation(format!("caps:accepted-malformed:{why}"), format!("capability text {s:?} is outside the grammar ({why}) but FileOptions::caps and build() accept it"), json!({"kind": "caps", "text": s}), s.len() as u64);
+                        }
+                    }
                 }
             }
         });
